@@ -60,3 +60,10 @@ package magic
 //@ func magic.tarChksum
 //@   requires len(b) <= 4096
 //@   loop 1 invariant 0 <= unsigned && unsigned <= 255 * (rangeindex + 1) && -128 * (rangeindex + 1) <= signed && signed <= 127 * (rangeindex + 1)
+
+// WHATWG binary data bytes, transcribed from the statement of C07.
+//@ spec isBinByte(b) = b <= 8 || b == 11 || (14 <= b && b <= 26) || (28 <= b && b <= 31)
+
+//@ func magic.Text
+//@   ensures [C07_text] result == (hasBOM(raw) || (forall i :: 0 <= i && i < len(raw) ==> !isBinByte(raw[i])))
+//@   loop 1 invariant [C07_scan] forall j :: 0 <= j && j <= rangeindex ==> !isBinByte(raw[j])
